@@ -18,6 +18,12 @@ EDITS = [
  ("C19", "crates/tx3-lang/src/parsing.rs", "            pest::error::InputLocation::Pos(pos) => Self::new(pos, pos),\n            pest::error::InputLocation::Span((start, end)) => Self::new(start, end),", "            pest::error::InputLocation::Span((start, end)) => Self::new(start, end),\n            pest::error::InputLocation::Pos(pos) => Self::new(pos, pos),", "reorder match arms in From<InputLocation>"),
  ("C05,C02,C14", "crates/tx3-cardano/src/ops.rs", "    tx.len() as u64 * pparams.min_fee_coefficient\n        + pparams.min_fee_constant\n        + extra_fees.unwrap_or(DEFAULT_EXTRA_FEES)", "    let margin = extra_fees.unwrap_or(DEFAULT_EXTRA_FEES);\n    let linear = tx.len() as u64 * pparams.min_fee_coefficient;\n    linear + pparams.min_fee_constant + margin", "introduce locals in eval_size_fees"),
  ("C10,C05,C14", "crates/tx3-cardano/src/lib.rs", "        let hash = compiled_tx.transaction_body.compute_hash();\n        let payload = pallas::codec::minicbor::to_vec(&compiled_tx).unwrap();", "        let payload = pallas::codec::minicbor::to_vec(&compiled_tx).unwrap();\n        let hash = compiled_tx.transaction_body.compute_hash();", "reorder hash/payload computation in compile"),
+ ("C20,C05", "crates/tx3-resolver/src/lib.rs", "    let tx = safe_apply_args(tx, args)?;\n\n    // the first pass must not see the body of an unrelated tx compiled earlier by this instance\n    compiler.reset();\n", "    // the first pass must not see the body of an unrelated tx compiled earlier by this instance\n    compiler.reset();\n\n    let tx = safe_apply_args(tx, args)?;\n", "reset before applying the arguments in resolve_tx"),
+ ("C20,C05", "crates/tx3-resolver/src/lib.rs", "    while let Some(better) = eval_pass(&tx, compiler, utxos, last_eval.as_ref()).await? {\n        last_eval = Some(better);", "    while let Some(candidate) = eval_pass(&tx, compiler, utxos, last_eval.as_ref()).await? {\n        last_eval = Some(candidate);", "rename the loop binding in resolve_tx"),
+ ("C20,C05,C06", "crates/tx3-resolver/src/lib.rs", "    let attempt = tx3_tir::reduce::apply_fees(attempt, fees)?;\n\n    let attempt = attempt.apply(compiler)?;", "    let with_fees = tx3_tir::reduce::apply_fees(attempt, fees)?;\n\n    let attempt = with_fees.apply(compiler)?;", "rename an intermediate in eval_pass"),
+ ("C20,C14", "crates/tx3-cardano/src/lib.rs", "        Self {\n            pparams,\n            config,\n            latest_tx_body: None,\n            cursor,\n        }", "        let latest_tx_body = None;\n\n        Self {\n            latest_tx_body,\n            cursor,\n            pparams,\n            config,\n        }", "restructure Compiler::new"),
+ ("C09,C14", "crates/tx3-cardano/src/compile/mod.rs", "        tir::Expression::Bytes(x) => Ok(x.as_data()),\n        tir::Expression::Number(x) => Ok(x.as_data()),\n        tir::Expression::Bool(x) => Ok(x.as_data()),\n        tir::Expression::String(x) => Ok(x.as_str().as_data()),", "        tir::Expression::Number(x) => Ok(x.as_data()),\n        tir::Expression::Bool(x) => Ok(x.as_data()),\n        tir::Expression::Bytes(x) => Ok(x.as_data()),\n        tir::Expression::String(x) => Ok(x.as_str().as_data()),", "reorder match arms in compile_data_expr"),
+ ("C02,C14", "crates/tx3-cardano/src/compile/mod.rs", "        .unwrap_or(3);\n    let script_bytes = script\n        .ok_or(Error::MissingExpression(\"script\".to_string()))?\n        .to_vec();", "        .unwrap_or(3);\n    let script = script.ok_or(Error::MissingExpression(\"script\".to_string()))?;\n    let script_bytes = script.to_vec();", "split a chain in compile_adhoc_script"),
 ]
 dst = '/tmp/harmless_repo'
 bad = 0
